@@ -8,6 +8,9 @@
 (*   own   ownership of element tokens (C07): token -> "queue" |           *)
 (*         "consumer" | "destroyed" (absent = with the caller)             *)
 (*   dying TRUE while the queue destructor runs                            *)
+(* Element objects are also tracked by address (driver): constructing one  *)
+(* on storage that already holds a live one, or destroying storage that    *)
+(* holds none (a moved-from object destroyed twice), is the event dtwice.   *)
 (*                                                                         *)
 (* Slack, exactly as the property statements allow:                        *)
 (*  fifo        push never fails; pop fails only if empty at some instant  *)
@@ -79,6 +82,7 @@ QEv(s, t, op, a, b) ==
                                                           !.q = SelectSeq(s.q, LAMBDA x : x # a)]}
          ELSE IF st = "caller" THEN {s}                                                         \* rejected / never pushed: the caller's business
          ELSE {}                                                                                \* double destruction, or destroyed while queued
+    [] op = "dtwice" -> {}                                              \* the destructor of an element OBJECT ran on storage that holds no live object
     [] op = "kept" -> IF OwnOf(s, a) = "caller" THEN {s} ELSE {}        \* a rejected push left the value with the caller
     [] op = "lost" -> {}                                                \* a rejected push consumed the caller's value
     [] op = "qdtor_begin" -> {[s EXCEPT !.dying = TRUE]}
